@@ -772,7 +772,7 @@ def configurations(ctx, rng, worlds):
     cfgs = []
     # canonical configurations: the full single-fault matrix where every credential-bearing method is enabled
     for epn in EPS:
-        cfgs.append(("plain", {"ep": epn, "methods": list(FULL), "issuer_target": False, "clients": {}}, "matrix"))
+        cfgs.append(("plain", {"ep": epn, "methods": list(FULL), "issuer_target": False, "clients": {}, "long": True}, "matrix"))
         cfgs.append(("plain", {"ep": epn, "methods": "default", "issuer_target": epn == "userinfo", "clients": {}}, "matrix"))
     cfgs.append(("plain", {"ep": "token", "methods": list(reversed(FULL)) + ["request_param", "public"], "issuer_target": True, "clients": {}}, "matrix"))
     cfgs.append(("plain", {"ep": "token", "methods": None, "issuer_target": False, "clients": {}}, "matrix"))
@@ -823,27 +823,21 @@ def run_history(ctx, world, cfg, mode, rng, clock, tag, cases):
         plan = gen + [f for f in mat if f[0] in ("fault:exp-past", "fault:hs-other-clients-secret", "fault:basic-cross-secret",
                                                   "fault:aud-wrong", "fault:smuggled-flag-client-id")]
     else:
-        plan = gen + rng.sample(mat, 12)
+        plan = rng.sample(gen, 8) + rng.sample(mat, 10)
     # random pairs of faults
-    for i in range(6 if ctx.quick else 10):
+    for i in range({"matrix": 6, "genuine": 1, "sampled": 4}[mode]):
         a, b = rng.sample(mat, 2)
         plan.append(("pair:%s+%s" % (a[0][6:], b[0][6:]), merge(a[1], b[1])))
-    # replays: every accepted-looking JWT again after k intervening requests
-    replays = []
-    jw = [(n, r) for n, r in gen if "assertion" in r or "request" in r]
-    for k, (n, r) in zip([0, 1, 5, 50], jw * 2):
-        replays.append((k, ("replay-after-%d:%s" % (k, n), r)))
-    executed = 0
-    pending = []
-    filler = [x for x in gen if x[0] in ("genuine:post", "genuine:basic", "genuine:none")] or gen
+    # replays: a genuine JWT credential again after k intervening requests
     queue = list(plan)
-    # schedule replays: k intervening requests after the genuine block
-    for k, item in replays:
-        pos = min(len(gen) + k, len(queue))
-        need = len(gen) + k - len(queue)
-        for _ in range(max(0, need)):
+    jw = [(n, r) for n, r in queue if n.startswith("genuine:") and ("assertion" in r or "request" in r)]
+    ks = [0, 1, 5, 50] if cfg.get("long") else ([0, 1, 5] if mode == "matrix" else [rng.choice([0, 1, 5])])
+    filler = [x for x in gen if x[0] in ("genuine:post", "genuine:basic", "genuine:none")]
+    for k, (n, r) in zip(ks, rng.sample(jw, len(jw))):
+        at = [i for i, x in enumerate(queue) if x[1] is r][0] + 1 + k
+        while len(queue) < at:
             queue.append(rng.choice(filler))
-        queue.insert(len(gen) + k, item)
+        queue.insert(at, ("replay-after-%d:%s" % (k, n), r))
     for name, rq in queue:
         if rng.random() < 0.1:
             d = rng.choice([1, 14, 15, 16, 60, 290])
